@@ -364,12 +364,12 @@ class _ExprCanon(ast.NodeTransformer):
             k = None
             if len(elts) == 1 and is_none(elts[0]):
                 k = 0
-            elif len(elts) == 2 and is_ell(elts[0]) and is_none(elts[1]):
-                k = -1
-            elif len(elts) == 3 and is_ell(elts[0]) and is_none(elts[1]) and is_full(elts[2]):
-                k = -2
+            elif len(elts) >= 2 and is_ell(elts[0]) and all(is_none(e) or is_full(e) for e in elts[1:]) and sum(1 for e in elts[1:] if is_none(e)) == 1:
+                k = -(sum(1 for e in elts[[i for i, e in enumerate(elts) if is_none(e)][0] + 1:] if is_full(e)) + 1)
+            elif len(elts) >= 2 and is_none(elts[-1]) and all(is_full(e) for e in elts[:-1]):
+                k = len(elts) - 1
             if k is not None:
-                arg = ast.Constant(0) if k == 0 else ast.UnaryOp(op=ast.USub(), operand=ast.Constant(-k))
+                arg = ast.Constant(k) if k >= 0 else ast.UnaryOp(op=ast.USub(), operand=ast.Constant(-k))
                 return ast.copy_location(_mcall(node.value, "unsqueeze", arg), node)
         return node
 
